@@ -115,6 +115,21 @@ def findings():
           "(tol/2, tol]*||A q_0|| the run ends with a non-zero basis column q_{j+1} whose column of H was never computed (zero), so A Q[:, :m] = Q H fails in that column",
           gap, "arnoldi(Dense([[2,1,0],[1,3,1],[0,1,4]]), [1,0,0], max_iters=3, tol=1/(0.75*sqrt(5)))")
 
+    def startnorm():
+        S = np.array([[2., 1., 0.], [1., 3., 1.], [0., 1., 4.]])
+        v32 = np.array([0.3, -1.1, 0.7], dtype=np.float32)
+        Q, H, _ = arnoldi(ops.Dense(S), v32, max_iters=2)
+        Q = np.asarray(Q.to_dense())
+        e32 = float(abs(np.linalg.norm(Q[:, 0]) - 1))
+        Q2, _, _ = arnoldi(ops.Dense(S), np.array([0.3, -1.1, 0.7]) * 1e-160, max_iters=2)
+        e160 = float(abs(np.linalg.norm(np.asarray(Q2.to_dense())[:, 0]) - 1))
+        return Q.dtype == np.float64 and max(e32, e160) > 1e-12, f"float32 start on a float64 operator: basis dtype {Q.dtype}, | ||q_0|| - 1 | = {e32:.3g}; float64 start of norm 1e-160: {e160:.3g}"
+    probe("arnoldi_start_norm_precision",
+          "init_arnoldi normalises the start vector in the vector's own dtype with an unscaled norm and never re-normalises in the buffer's precision: "
+          "for a float32 / complex64 start on a float64 / complex128 operator the first basis column is a unit vector only to float32 precision (2e-8) "
+          "although the basis is float64; for a float64 start of norm ~1e-160 (squares subnormal) only to ~1e-6.  (lanczos re-normalises column 1 in its first step and is not affected)",
+          startnorm, "arnoldi(Dense([[2,1,0],[1,3,1],[0,1,4]]), float32([0.3,-1.1,0.7]), max_iters=2)  and the same vector times 1e-160 in float64")
+
     def batch():
         w, U = np.linalg.eigh(S5)
         V = np.stack([np.array([1., -1., 2., 0.5, 1.5]), U[:, 0] + U[:, 1]], 1)
@@ -304,7 +319,9 @@ def run(ctx):
             mism.append(dict(oracle_fail=True, case=c, got={k: o.get(k) for k in ("ok", "err", "shapes", "eigs", "H")}, failed_clauses=bad))
     # larger ill-conditioned Krylov sequences (n 40..100, non-normal, spectrum decaying over 8..12 orders, 30..60 steps): oracle only
     ill = [L.gen_illcond(ctx.rng) for _ in range(ctx.budget(5, 30))]
-    for c in gone_region + big + ill:
+    # annotated Hermitian operators (declared / inferred SelfAdjoint, PSD) of size 40..64, spectrum k^2, n steps: oracle only
+    annotated = [L.gen_annotated(ctx.rng) for _ in range(ctx.budget(8, 40))]
+    for c in gone_region + big + ill + annotated:
         o = L.run_impl(c)
         bad = L.oracle(c, o, present)
         if bad:
@@ -322,7 +339,7 @@ def run(ctx):
         rel = "m<n" if c["max_iters"] < c["n"] else ("m=n" if c["max_iters"] == c["n"] else "m>n")
         mh[rel] = mh.get(rel, 0) + 1
     return dict(
-        evaluations=len(cases) + len(gone_region) + len(big) + len(mixed) + len(exact) + len(weak) + len(ill) + len(graded), distinct_nontrivial=distinct,
+        evaluations=len(cases) + len(gone_region) + len(big) + len(mixed) + len(exact) + len(weak) + len(ill) + len(graded) + len(annotated), distinct_nontrivial=distinct,
         rule="square operators n<=%d (dense/Sum/Product/ScalarMul/Kronecker/Diagonal/matmat-defined; real and complex; generic, symmetric, unitary, skew, "
              "block-triangular non-normal with an invariant subspace), starts random/in an invariant subspace (breakdown)/scaled, 1-D and batched, max_iters 1..n+3 "
              "(m<n, m=n, m>n), ten tolerances; non-trivial = n>=3 and max_iters>=2; distinct by hash of (operator data, start, max_iters, tol)" % nmax,
@@ -335,7 +352,7 @@ def run(ctx):
                    breakdown_cases=sum(1 for c in cases if min(c["grades"]) < min(c["max_iters"], c["n"])),
                    complex_cases=sum(1 for c in cases if c["cplx"]), batched_cases=sum(1 for c in cases if c["batch"]),
                    eigs_cases=sum(1 for c in cases if c["entry"] == "arnoldi_eigs"),
-                   avoided_regions=avoided, weak_coupling_eigs_cases=len(weak), graded_eigs_cases=len(graded), no_start_vector_cases=len(nostart), illconditioned_large_cases=len(ill), exact_stream_cases=len(exact), exact_stream_tol0=sum(1 for c in exact if c['tol'] == 0.0), mixed_batches_used=len(mixed), batch_elements_vs_single_start=elem_compared, defect_free_region_cases=len(gone_region), large_oracle_only=len(big),
+                   avoided_regions=avoided, weak_coupling_eigs_cases=len(weak), graded_eigs_cases=len(graded), no_start_vector_cases=len(nostart), illconditioned_large_cases=len(ill), annotated_large_cases=len(annotated), exact_stream_cases=len(exact), exact_stream_tol0=sum(1 for c in exact if c['tol'] == 0.0), mixed_batches_used=len(mixed), batch_elements_vs_single_start=elem_compared, defect_free_region_cases=len(gone_region), large_oracle_only=len(big),
                    impl_exceptions=sum(1 for o in obs if not o.get("ok"))))
 
 
